@@ -7,6 +7,11 @@ BASELINE = ("cd /repo && (cargo nextest run --workspace --no-fail-fast --tool-co
 
 # id -> (level, technique, level text, note, design ref)
 CHECKS = {
+ "C02": ("exploration",
+         "metamorphic property-based testing: value(doc) == value(harness-computed alias-free expansion); exhaustive small trees x anchor/alias placements + proptest-generated decorated trees",
+         "Every tree with <= 5 (thorough 6) nodes x every placement of <= 2 anchors and <= 3 aliases in block and flow layout, plus random decorated trees, merge values through aliases and multi-document streams, for untyped, serde_json and shape-following typed targets; each document is compared with its alias-free, anchor-free expansion computed on the AST; unbound aliases must be rejected. Exploration: no counterexample in the enumerated space and the random sample.",
+         "trusts the harness' expander (YAML semantics: names bind at the anchor mark) and renderer; every rendered text is self-checked against the raw saphyr-parser event stream; recursive aliases (alias to a still-open node) are not judged",
+         "DESIGN.md section 3 C02"),
  "C12": ("exploration",
          "property-based round trip (proptest + exhaustive small-string enumeration), oracle = equality after from_str(to_string(v)) plus untyped string view",
          "Exhaustive enumeration of all strings of length <= 3 (thorough: <= 4) over a 46-character adversarial alphabet in 12 positions under 11+ option vectors, a look-alike lexicon with every 1-character prefix/suffix, random long strings, strided (thorough: all 2^32) f32 bit patterns, random/boundary f64, all integer width boundaries, chars and byte arrays; each case is serialised, parsed back typed and untyped and compared. Exploration, not proof: absence of counterexamples in the stated finite spaces and samples.",
